@@ -90,6 +90,11 @@ IconCases ==
     \cup {TCase("Rp", [RpMin EXCEPT !.icon = <<AsciiPattern(5, n)>>], "rp.icon") : n \in IconLengths}
     \cup {SentCase(1, [McReqMin EXCEPT !.user = [UserMin EXCEPT !.icon = <<AsciiPattern(4, n)>>],
                                        !.rp = [RpMin EXCEPT !.icon = <<AsciiPattern(5, n)>>]], "mc.icons", F) : n \in IconLengths}
+    \* the discarded relying-party icon made of 2-, 3- and 4-byte characters at every alignment
+    \cup {TCase("Rp", [RpMin EXCEPT !.icon = <<AsciiPattern(5, pad) \o RepChar(CharA(w), k)>>], "rp.icon-multibyte") :
+             w \in {2, 3, 4}, pad \in 0..3, k \in {1, 5, 8, 11, 12, 13, 16, 17, 21, 22, 32, 33, 43, 64, 65}}
+    \cup {TCase("User", [UserMin EXCEPT !.icon = <<AsciiPattern(5, pad) \o RepChar(CharA(w), k)>>], "user.icon-multibyte") :
+             w \in {2, 3, 4}, pad \in 0..3, k \in {1, 16, 31, 32, 33, 42, 43, 63, 64, 65}}
     \* the legacy spelling "url" of the relying-party icon
     \cup {TypeDecCase("Rp", Enc(CMap(<< <<CText(N_id), CText(RpMin.id)>>, <<CText(N_url), CText(AsciiPattern(6, n))>> >>)), "rp.url")
             @@ [sv |-> <<[RpMin EXCEPT !.icon = <<AsciiPattern(6, n)>>]>>] : n \in {0, 1, 128, 129, 300}}
